@@ -245,10 +245,16 @@ def trial_sequence(facts):
         trials = trial_functions(facts)
         ids = {b.id: f for f, b in trials.items()}
         ts = TrialSeq()
-        # form A: a function calling all four trials directly
+        # form A: a function calling all four trials directly; form C: that function merely dispatches on a
+        # Format it is given (one trial per arm) and the sequence is a constant array of Formats walked by its
+        # only caller
         for b in lib.bodies:
             called = {(fn_of(t) or {}).get("resolved") or (fn_of(t) or {}).get("def") for _, t in b.calls()}
             if set(ids) <= called:
+                arms = _dispatch_arms(lib, b, ids)
+                if arms is not None:
+                    _build_dispatch(lib, ts, ids, b, arms)
+                    return ts
                 ts.driver, ts.form = b, "inline"
                 _build_inline(lib, ts, ids)
                 return ts
@@ -464,6 +470,169 @@ def _build_table(lib, ts, ids, cid, cb, rows):
                            "selected": sel_ok and paired.get(fmt, False), "sel_site": sel_site if paired.get(fmt, False) else site(cb)}
 
 
+def _dispatch_arms(lib, d, ids):
+    """{Format variant: trial format} when `d` runs every trial on its own arm of a match over one of its
+    parameters (an enum value naming the format to try), handing its own input parameter to the trial; else
+    None."""
+    from model import enum_edge
+
+    arms = {}
+    for p in range(1, d.nargs + 1):
+        adt = lib.adts.get(d.local_ty(p))
+        if not (adt and adt["kind"] == "enum"):
+            continue
+        sws = []
+        for sb in sorted(d.reach()):
+            blk = d.blocks[sb]
+            t = blk["term"]
+            if t["k"] != "switch" or not is_place(t["discr"]):
+                continue
+            dl = t["discr"]["p"]["l"]
+            if any(s_["k"] == "assign" and s_["p"]["l"] == dl and s_["rv"]["k"] == "discr" and not s_["rv"]["p"]["pr"] and s_["rv"]["p"]["l"] == p for s_ in blk["stmts"]):
+                sws.append(sb)
+        if len(sws) != 1:
+            continue
+        sb = sws[0]
+        for bb, t in d.calls():
+            f = fn_of(t) or {}
+            r = f.get("resolved") or f.get("def")
+            if r not in ids:
+                continue
+            tr = trace(d, t["args"][0]) if t["args"] else None
+            if not (tr and tr.origin and tr.origin[0] == "arg" and all(s_[0] == "use" for s_ in tr.steps)):
+                return None
+            on = []
+            for var in adt["variants"]:
+                e = enum_edge(d, sb, var["idx"])
+                if e and d.edge_dominates(e[0], e[1], e[2], bb):
+                    on.append(var["name"])
+            if len(on) != 1 or on[0] in arms:
+                return None
+            arms[on[0]] = ids[r]
+        if len(arms) == len(ids):
+            return {"param": p, "arms": arms, "adt": adt["path"]}
+        arms = {}
+    return None
+
+
+def _variant_rows(cb):
+    """[variant] of a const initialiser of the form [Enum::A, Enum::B, ...], or None."""
+    arr = [p for _, _, k, p in cb.whole_defs(0) if k == "assign" and p["rv"]["k"] == "aggregate" and p["rv"].get("agg") == "array"]
+    if len(arr) != 1:
+        return None
+    rows = []
+    for op in arr[0]["rv"]["ops"]:
+        tr = trace(cb, op)
+        v = None
+        if tr.origin and tr.origin[0] == "agg":
+            v = tr.origin[1]["rv"].get("variant")
+        elif tr.origin and tr.origin[0] == "const":
+            v = tr.origin[1].get("variant")
+        if v is None:
+            return None
+        rows.append(v)
+    return rows
+
+
+def _build_dispatch(lib, ts, ids, disp, info):
+    """Form C: `for candidate in TABLE { if dispatch(input.borrow_mut(), candidate)? { return Ok(Some(candidate)) } }`."""
+    arms = info["arms"]
+    sites = [(b, bb, t) for b in lib.bodies for bb, t in b.calls() if ((fn_of(t) or {}).get("resolved") or (fn_of(t) or {}).get("def")) == disp.id]
+    if len(sites) != 1:
+        raise AnchorLost(f"the trial dispatcher {disp.name} is called from {len(sites)} sites")
+    det, cbb, ct = sites[0]
+    ts.driver, ts.form = det, "dispatch"
+    # the Format handed to the dispatcher is the item of an Iterator::next over a constant array of Formats
+    nexts = []
+    for bb, t in det.calls():
+        f = fn_of(t) or {}
+        if f.get("trait") == "std::iter::Iterator" and f.get("name") == "next":
+            st = f.get("self_ty", "")
+            srcs = []
+            tr = trace(det, t["args"][0], passthrough_extra=("std::iter::IntoIterator::into_iter", "::iter"))
+            if tr.origin and tr.origin[0] == "const":
+                srcs.append(tr.origin[1].get("def"))
+            if tr.origin and tr.origin[0] == "multi":
+                for _, _, k, p in tr.origin[2]:
+                    if k == "assign" and p["rv"]["k"] == "use":
+                        t2 = trace(det, p["rv"]["op"], passthrough_extra=("std::iter::IntoIterator::into_iter", "::iter"))
+                        if t2.origin and t2.origin[0] == "const":
+                            srcs.append(t2.origin[1].get("def"))
+            for cid in srcs:
+                cb = lib.const_bodies.get(cid)
+                rows = _variant_rows(cb) if cb is not None else None
+                if rows is not None:
+                    plain = st.startswith("std::array::IntoIter<") or st.startswith("std::slice::Iter<")
+                    nexts.append((bb, t, plain, st, rows, cb))
+    if len(nexts) != 1:
+        ts.problems.append(f"expected one Iterator::next over a constant array of formats in {det.name}, found {len(nexts)}")
+        return
+    nbb, nt, plain, st, rows, cb = nexts[0]
+    if not plain:
+        ts.problems.append(f"the format table is walked through {st}: the order of trials is not the table order")
+
+    def from_item(op):
+        tr = trace(det, op)
+        if not (tr.origin and tr.origin[0] == "call" and tr.origin[2] is nt):
+            return False
+        fields = [s_[1] for s_ in tr.steps if s_[0] == "field"]
+        return any(s_[0] == "downcast" and s_[1] == "Some" for s_ in tr.steps) and len(fields) == 1
+
+    order = []
+    for v in rows:
+        fmt = arms.get(v)
+        if fmt is None:
+            ts.problems.append(f"table entry {v} has no trial arm in {disp.name}")
+            continue
+        if fmt in order:
+            ts.problems.append(f"the {fmt} trial appears twice in the table")
+        order.append(fmt)
+    ts.order = order
+    pidx = info["param"] - 1
+    if not (len(ct["args"]) > pidx and from_item(ct["args"][pidx])):
+        ts.problems.append(f"the format handed to {disp.name} is not the table's current entry")
+    in_args = [a for i, a in enumerate(ct["args"]) if i != pidx]
+    ok, src_bb, acc, rew = _borrow_info(lib, det, cbb, in_args[0]) if in_args else (False, None, None, False)
+    fresh = ok and src_bb is not None and det.dominates(nbb, src_bb) and det.on_cycle(src_bb)
+    sel_ok = False
+    sel_site = site(det, cbb)
+    for bi in sorted(det.reach()):
+        for s_ in det.blocks[bi]["stmts"]:
+            if s_["k"] == "assign" and s_["rv"]["k"] == "aggregate" and s_["rv"].get("variant") == "Some" and "Option<Format>" in s_["p"]["ty"]:
+                sel_site = site(det, bi)
+                if not from_item(s_["rv"]["ops"][0]):
+                    ts.stray.append(("<not the table's current entry>", site(det, bi)))
+                    continue
+                good = False
+                for sb in det.reach():
+                    sw = det.blocks[sb]["term"]
+                    if sw["k"] != "switch" or sw.get("discr_ty") != "bool":
+                        continue
+                    tr = trace(det, sw["discr"])
+                    if tr.origin and tr.origin[0] == "call" and tr.origin[2] is ct and any(st_[0] == "downcast" and st_[1] == "Continue" for st_ in tr.steps):
+                        if det.edge_dominates(sb, "otherwise", sw["otherwise"], bi):
+                            good = True
+                if good:
+                    sel_ok = True
+                else:
+                    ts.stray.append(("<table entry>", site(det, bi)))
+    for bi, variant in _format_aggregates(det):
+        ts.stray.append((variant, site(det, bi)))
+    for bi, variant in _format_aggregates(disp):
+        ts.stray.append((variant, site(disp, bi)))
+    tsite = {}
+    for bb, t in disp.calls():
+        r = (fn_of(t) or {}).get("resolved") or (fn_of(t) or {}).get("def")
+        if r in ids:
+            tsite[ids[r]] = site(disp, bb)
+    for v, fmt in arms.items():
+        if fmt not in order:
+            continue
+        paired = v.lower() == fmt
+        ts.entries[fmt] = {"site": tsite.get(fmt, site(det, cbb)), "fresh": fresh, "rewinds": rew, "acc_site": site(acc) if acc else site(det, cbb),
+                           "selected": sel_ok and paired, "sel_site": sel_site if paired else tsite.get(fmt, site(disp))}
+
+
 def detect_function(facts):
     """The detection driver (see TrialSeq)."""
     return trial_sequence(facts).driver
@@ -596,6 +765,43 @@ def chunker(facts):
         return {"next": b, "adt": b.raw.get("impl_self_adt"), "sup": sup, "bodies": bodies, "loop": loop}
 
     return memo(facts, "chunker", build)
+
+
+def chunker_event_edges(facts):
+    """{event name: [(switch node, label, dst node)]} over the chunker's supergraph: the edges its dispatch on
+    the libyaml event type takes for each event (a `match` on the event type lowers to a switch on the
+    discriminant of `yaml_event_type_t`); 'otherwise' collects the events without an arm of their own."""
+
+    def build():
+        lib = facts.lib
+        ch = chunker(facts)
+        sup = ch["sup"]
+        adt = lib.adts.get("unsafe_libyaml::yaml_event_type_t")
+        if not adt:
+            raise AnchorLost("no facts for unsafe_libyaml::yaml_event_type_t")
+        names = {v.get("discr", v["idx"]): v["name"] for v in adt["variants"]}
+        out = {}
+        for n in sorted(sup.nodes(), key=str):
+            body = sup.body_of(n)
+            blk = body.blocks[n[1]]
+            t = blk["term"]
+            if t["k"] != "switch" or not is_place(t["discr"]):
+                continue
+            dl = t["discr"]["p"]["l"]
+            if not any(s_["k"] == "assign" and not s_["p"]["pr"] and s_["p"]["l"] == dl and s_["rv"]["k"] == "discr" and "yaml_event_type_t" in s_["rv"]["p"].get("ty", "") for s_ in blk["stmts"]):
+                continue
+            taken = set()
+            for v, x in t["targets"]:
+                out.setdefault(names.get(v, f"#{v}"), []).append((n, v, (n[0], x)))
+                taken.add(v)
+            for v, nm in names.items():
+                if v not in taken:
+                    out.setdefault(nm, []).append((n, "otherwise", (n[0], t["otherwise"])))
+        if "YAML_DOCUMENT_END_EVENT" not in out:
+            raise AnchorLost("no dispatch on the libyaml event type in the chunker")
+        return out
+
+    return memo(facts, "chunker_event_edges", build)
 
 
 def _pat_paths(pat):
